@@ -433,3 +433,333 @@ Proof.
     split; [exact Hs|]. split; [exact Hm|]. split; [exact Hsc|]. split; [exact Ht|]. split; [exact E|].
     symmetry. apply tc_perm_spec; assumption.
 Qed.
+
+(* ------------------------------------------------------------------ *)
+(* uniqueness                                                           *)
+(* ------------------------------------------------------------------ *)
+Theorem names_unique_proof : forall ss cs mode L, new_library ss cs mode = Ok L -> NoDup (map p_name L).
+Proof. intros ss cs mode L H. apply new_library_ok_iff in H. tauto. Qed.
+
+Lemma NoDup_map_inj {A B} (f : A -> B) l : NoDup (map f l) ->
+  forall a b, In a l -> In b l -> f a = f b -> a = b.
+Proof.
+  induction l as [|x l IH]; simpl; intros ND a b Ha Hb E; [destruct Ha|].
+  inversion ND as [|? ? Hx Hn]; subst.
+  destruct Ha as [<-|Ha], Hb as [<-|Hb].
+  - reflexivity.
+  - exfalso; apply Hx. rewrite E. apply in_map; exact Hb.
+  - exfalso; apply Hx. rewrite <- E. apply in_map; exact Ha.
+  - apply IH; assumption.
+Qed.
+
+Theorem name_determines_permutation_proof : forall ss cs mode L, new_library ss cs mode = Ok L ->
+  forall p q, In p L -> In q L -> p_name p = p_name q -> p = q.
+Proof. intros ss cs mode L H. apply NoDup_map_inj. eapply names_unique_proof; exact H. Qed.
+
+(* ------------------------------------------------------------------ *)
+(* independence of the map iteration order                              *)
+(* ------------------------------------------------------------------ *)
+Lemma suite_cases_ext s cs cs' : (forall c, In c cs <-> In c cs') -> suite_cases s cs = suite_cases s cs'.
+Proof.
+  intros H. unfold suite_cases. apply filter_ext. intros c.
+  destruct (mem_case c cs) eqn:E1, (mem_case c cs') eqn:E2; try reflexivity.
+  - apply mem_case_in, H, mem_case_in in E1. congruence.
+  - apply mem_case_in, H, mem_case_in in E2. congruence.
+Qed.
+
+Lemma order_fwd ss ss' cs cs' mode L :
+  Permutation ss ss' -> (forall c, In c cs <-> In c cs') ->
+  new_library ss cs mode = Ok L -> exists L', new_library ss' cs' mode = Ok L' /\ Permutation L L'.
+Proof.
+  intros HP HC H. apply new_library_ok_iff in H. destruct H as (Hh & Hn & Ho & -> & Nn & NE).
+  assert (Eact : forall s, active_perms mode cs s = active_perms mode cs' s).
+  { intros s. unfold active_perms, suite_perms. rewrite (suite_cases_ext s cs cs' HC). reflexivity. }
+  assert (PL : Permutation (all_perms mode ss cs) (all_perms mode ss' cs')).
+  { unfold all_perms. rewrite (flat_map_ext _ _ Eact). apply Permutation_flat_map. exact HP. }
+  exists (all_perms mode ss' cs'). split; [|exact PL].
+  apply new_library_ok_iff. repeat split.
+  - eapply Permutation_Forall; eassumption.
+  - eapply Permutation_NoDup; [apply Permutation_map; exact HP|exact Hn].
+  - eapply Permutation_Forall; [exact HP|]. eapply Forall_impl; [|exact Ho].
+    intros s Hs. unfold suite_ok, suite_body_ok in *. rewrite <- (suite_cases_ext s cs cs' HC). exact Hs.
+  - unfold names. eapply Permutation_NoDup; [apply Permutation_map; exact PL|exact Nn].
+  - intros E. rewrite E in PL. apply Permutation_sym, Permutation_nil in PL. contradiction.
+Qed.
+
+Theorem order_independent_proof : forall ss ss' cs cs' mode,
+  Permutation ss ss' -> (forall c, In c cs <-> In c cs') ->
+  same_result (new_library ss cs mode) (new_library ss' cs' mode).
+Proof.
+  intros ss ss' cs cs' mode HP HC. unfold same_result.
+  destruct (new_library ss cs mode) as [L|] eqn:E1, (new_library ss' cs' mode) as [L'|] eqn:E2.
+  - destruct (order_fwd _ _ _ _ _ _ HP HC E1) as (L2 & E3 & P). rewrite E2 in E3. inversion E3; subst. exact P.
+  - destruct (order_fwd _ _ _ _ _ _ HP HC E1) as (L2 & E3 & P). congruence.
+  - assert (HC' : forall c, In c cs' <-> In c cs) by (intros c; symmetry; apply HC).
+    destruct (order_fwd _ _ _ _ _ _ (Permutation_sym HP) HC' E2) as (L2 & E3 & P). congruence.
+  - constructor.
+Qed.
+
+(* ------------------------------------------------------------------ *)
+(* request fields                                                       *)
+(* ------------------------------------------------------------------ *)
+Theorem request_fields_proof : forall ss cs mode L, new_library ss cs mode = Ok L ->
+  forall p, In p L ->
+    exists s t c, In s ss /\ In t (s_cases s) /\ In c cs /\ admits s c /\
+      p_name p = spec_name s c t /\ p_simple p = t_name t /\
+      p_version p = c_version c /\ p_protocol p = c_protocol c /\ p_codec p = c_codec c /\
+      p_compression p = c_compression c /\ p_stream p = c_stream c /\ p_stream p = t_stream t /\
+      (p_cert p <> [] <-> c_tls c = true) /\ (p_creds p = true <-> c_certs c = true) /\
+      (t_service t = [] -> p_service p = spec_default_service /\ p_method p = spec_default_method (p_stream p)) /\
+      (t_service t <> [] -> p_service p = t_service t /\ p_method p = t_method t) /\
+      p_limit p = 1048576 /\
+      server_instance p = spec_instance c.
+Proof.
+  intros ss cs mode L H p Hp. apply (perm_iff_proof _ _ _ _ H) in Hp.
+  destruct Hp as (s & t & c & Hs & Ht & Hc & _ & Ha & Es & ->). exists s, t, c.
+  unfold spec_perm, server_instance, spec_instance; simpl.
+  repeat (split; [first [assumption|reflexivity|symmetry; assumption]|]).
+  split; [destruct (c_tls c); simpl; split; congruence|].
+  split; [tauto|].
+  split; [intros E; rewrite E; simpl; tauto|].
+  split; [intros E; destruct (t_service t); [congruence|simpl; tauto]|].
+  split; [reflexivity|]. destruct (c_tls c); reflexivity.
+Qed.
+
+(* ------------------------------------------------------------------ *)
+(* grouping                                                             *)
+(* ------------------------------------------------------------------ *)
+Lemma inst_eqb_spec a b : reflect (a = b) (inst_eqb a b).
+Proof.
+  destruct a as [p v t c], b as [p' v' t' c']; unfold inst_eqb; simpl.
+  destruct (N.eqb_spec p p'); [|constructor; congruence].
+  destruct (N.eqb_spec v v'); [|constructor; congruence].
+  destruct t, t', c, c'; simpl; constructor; congruence.
+Qed.
+
+Fixpoint lookup_group (k : inst) (g : list (inst * list perm)) : list perm :=
+  match g with
+  | [] => []
+  | (k', l) :: r => if inst_eqb k k' then l else lookup_group k r
+  end.
+
+Lemma lookup_add k p g k' :
+  lookup_group k' (add_to_group k p g) =
+  if inst_eqb k k' then lookup_group k' g ++ [p] else lookup_group k' g.
+Proof.
+  induction g as [|[k0 l0] r IH]; simpl.
+  - destruct (inst_eqb_spec k' k), (inst_eqb_spec k k'); subst; try reflexivity; congruence.
+  - destruct (inst_eqb_spec k k0) as [E|E]; simpl.
+    + subst k0. destruct (inst_eqb_spec k' k), (inst_eqb_spec k k'); subst; try reflexivity; congruence.
+    + rewrite IH. destruct (inst_eqb_spec k' k0), (inst_eqb_spec k k'); subst; try reflexivity; congruence.
+Qed.
+
+Lemma keys_add k p g k' : In k' (map fst (add_to_group k p g)) <-> k' = k \/ In k' (map fst g).
+Proof.
+  induction g as [|[k0 l0] r IH]; simpl; [intuition|].
+  destruct (inst_eqb_spec k k0) as [E|E]; simpl; [subst; intuition|]. rewrite IH. intuition.
+Qed.
+
+Lemma keys_add_nodup k p g : NoDup (map fst g) -> NoDup (map fst (add_to_group k p g)).
+Proof.
+  induction g as [|[k0 l0] r IH]; simpl; intros ND.
+  - repeat constructor. simpl; tauto.
+  - inversion ND as [|? ? Hx Hn]; subst. destruct (inst_eqb_spec k k0) as [E|E]; simpl.
+    + constructor; assumption.
+    + constructor; [|apply IH; exact Hn]. rewrite keys_add. intros [->|H]; [congruence|contradiction].
+Qed.
+
+Lemma group_fold order : forall g,
+  let g' := fold_left (fun g p => add_to_group (server_instance p) p g) order g in
+  (NoDup (map fst g) -> NoDup (map fst g')) /\
+  (forall k, lookup_group k g' = lookup_group k g ++ filter (fun p => inst_eqb (server_instance p) k) order) /\
+  (forall k, In k (map fst g') <-> In k (map fst g) \/ exists p, In p order /\ server_instance p = k).
+Proof.
+  induction order as [|p r IH]; intros g; simpl.
+  - repeat split; try tauto.
+    + intros k. rewrite app_nil_r. reflexivity.
+    + intros [H|(p & [] & _)]; exact H.
+  - specialize (IH (add_to_group (server_instance p) p g)). simpl in IH. destruct IH as (A & B & C).
+    repeat split.
+    + intros ND. apply A, keys_add_nodup, ND.
+    + intros k. rewrite B, lookup_add. destruct (inst_eqb (server_instance p) k); [rewrite <- app_assoc|]; reflexivity.
+    + intros H. apply C in H. rewrite keys_add in H. destruct H as [[->|H]|(q & Hq & E)].
+      * right; exists p; split; [left; reflexivity|reflexivity].
+      * left; exact H.
+      * right; exists q; split; [right; exact Hq|exact E].
+    + intros H. apply C. rewrite keys_add. destruct H as [H|(q & [<-|Hq] & E)].
+      * left; right; exact H.
+      * left; left; symmetry; exact E.
+      * right; exists q; split; assumption.
+Qed.
+
+Lemma lookup_in g : NoDup (map fst g) -> forall k l, In (k, l) g -> lookup_group k g = l.
+Proof.
+  induction g as [|[k0 l0] r IH]; simpl; intros ND k l H; [destruct H|].
+  inversion ND as [|? ? Hx Hn]; subst. destruct (inst_eqb_spec k k0) as [E|E].
+  - subst. destruct H as [H|H]; [congruence|]. exfalso; apply Hx. apply in_map_iff. exists (k0, l); split; [reflexivity|exact H].
+  - destruct H as [H|H]; [congruence|]. apply IH; assumption.
+Qed.
+
+Theorem groups_proof : forall order, grouped order (group_cases order).
+Proof.
+  intros order. unfold grouped, group_cases.
+  destruct (group_fold order []) as (A & B & C). simpl in *.
+  assert (ND : NoDup (map fst (fold_left (fun g p => add_to_group (server_instance p) p g) order []))) by (apply A; constructor).
+  split; [exact ND|]. split.
+  - intros k l H. rewrite <- (lookup_in _ ND _ _ H), B. simpl. split; [|reflexivity].
+    assert (Hk : In k (map fst (fold_left (fun g p => add_to_group (server_instance p) p g) order []))).
+    { apply in_map_iff. exists (k, l); split; [reflexivity|exact H]. }
+    apply C in Hk. destruct Hk as [[]|(p & Hp & E)].
+    intros Ef. assert (Hin : In p (filter (fun p => inst_eqb (server_instance p) k) order)).
+    { apply filter_In. split; [exact Hp|]. destruct (inst_eqb_spec (server_instance p) k); congruence. }
+    rewrite Ef in Hin. destruct Hin.
+  - intros p Hp.
+    assert (Hk : In (server_instance p) (map fst (fold_left (fun g p => add_to_group (server_instance p) p g) order []))).
+    { apply C. right. exists p; split; [exact Hp|reflexivity]. }
+    apply in_map_iff in Hk. destruct Hk as ([k l] & E & H). simpl in E; subst. exists l; exact H.
+Qed.
+
+(* consequence: a permutation sits in exactly the group of its own server instance *)
+Theorem grouped_once_proof : forall order g, grouped order g ->
+  forall p, In p order ->
+    (exists l, In (server_instance p, l) g /\ In p l) /\
+    (forall k l, In (k, l) g -> In p l -> k = server_instance p).
+Proof.
+  intros order g (ND & F & E) p Hp. split.
+  - destruct (E p Hp) as (l & Hl). exists l; split; [exact Hl|].
+    destruct (F _ _ Hl) as (_ & ->). apply filter_In. split; [exact Hp|].
+    destruct (inst_eqb_spec (server_instance p) (server_instance p)); congruence.
+  - intros k l Hl Hin. destruct (F _ _ Hl) as (_ & El). rewrite El in Hin. apply filter_In in Hin.
+    destruct Hin as (_ & Hk). destruct (inst_eqb_spec (server_instance p) k); congruence.
+Qed.
+
+(* ------------------------------------------------------------------ *)
+(* the gRPC-peer filter                                                 *)
+(* ------------------------------------------------------------------ *)
+Lemma if_false_iff (b r : bool) : (if b then false else r) = true <-> b = false /\ r = true.
+Proof. destruct b; intuition congruence. Qed.
+
+Lemma grpc_keep_iff cl sv p : In (p_protocol p) c07_all_protocols ->
+  (grpc_keep cl sv p = true <-> grpc_applicable cl sv p).
+Proof.
+  intros Hd. unfold grpc_keep, grpc_applicable. rewrite !if_false_iff.
+  assert (K12 : ((cl && negb (p_protocol p =? 2)) || (p_protocol p =? 1) = false /\
+                 (if p_protocol p =? 3 then negb ((p_version p =? 1) || (p_version p =? 2)) else negb (p_version p =? 2)) = false)
+                <-> ((p_protocol p = 2 \/ (cl = false /\ p_protocol p = 3)) /\
+                     (p_protocol p = 2 -> p_version p = 2) /\
+                     (p_protocol p = 3 -> p_version p = 1 \/ p_version p = 2))).
+  { destruct Hd as [E|[E|[E|[]]]]; rewrite <- E; simpl (_ =? _); destruct cl; simpl;
+      destruct (N.eqb_spec (p_version p) 1) as [V1|V1], (N.eqb_spec (p_version p) 2) as [V2|V2]; simpl;
+      intuition congruence. }
+  assert (K3 : negb (p_codec p =? 1) = false <-> p_codec p = 1)
+    by (destruct (N.eqb_spec (p_codec p) 1); simpl; intuition congruence).
+  assert (K4 : negb (p_compression p =? 1) && negb (p_compression p =? 2) = false <->
+               (p_compression p = 1 \/ p_compression p = 2))
+    by (destruct (N.eqb_spec (p_compression p) 1), (N.eqb_spec (p_compression p) 2); simpl; intuition congruence).
+  assert (K5 : negb (is_nil (p_cert p)) = false <-> p_cert p = [])
+    by (destruct (p_cert p); simpl; intuition congruence).
+  assert (K6 : p_rawreq p && cl = false <-> (cl = true -> p_rawreq p = false))
+    by (destruct (p_rawreq p), cl; simpl; intuition congruence).
+  assert (K7 : p_rawresp p && sv = false <-> (sv = true -> p_rawresp p = false))
+    by (destruct (p_rawresp p), sv; simpl; intuition congruence).
+  tauto.
+Qed.
+
+Theorem grpc_filter_iff_proof : forall cl sv l,
+  (forall p, In p l -> In (p_protocol p) c07_all_protocols) ->
+  forall q, In q (grpc_filter cl sv l) <->
+    (cl = false /\ sv = false /\ In q l) \/
+    ((cl = true \/ sv = true) /\ exists p, In p l /\ grpc_applicable cl sv p /\ q = rename cl sv p).
+Proof.
+  intros cl sv l Hd q. unfold grpc_filter.
+  destruct cl, sv; simpl; try (rewrite in_map_iff; split;
+    [intros (p & <- & Hp); apply filter_In in Hp; destruct Hp as (Hp & Hk); right; split; [auto|];
+       exists p; split; [exact Hp|]; split; [apply grpc_keep_iff; [apply Hd; exact Hp|exact Hk]|reflexivity]
+    |intros [(A & B & _)|(_ & p & Hp & Ha & ->)]; try discriminate;
+       exists p; split; [reflexivity|]; apply filter_In; split; [exact Hp|]; apply grpc_keep_iff; [apply Hd; exact Hp|exact Ha]]).
+  split; [intros H; left; auto|intros [(_ & _ & H)|([A|A] & _)]; [exact H|discriminate|discriminate]].
+Qed.
+
+Lemma has_prefix_app a b : has_prefix a (a ++ b) = true.
+Proof. induction a as [|x a IH]; simpl; [reflexivity|]. rewrite N.eqb_refl. exact IH. Qed.
+
+Lemma trim_suffix_app pre suf : trim_suffix (pre ++ suf) suf = pre.
+Proof.
+  unfold trim_suffix, has_suffix. rewrite rev_app_distr, has_prefix_app, app_length.
+  replace (length pre + length suf - length suf)%nat with (length pre + 0)%nat by lia.
+  rewrite firstn_app_2. simpl. apply app_nil_r.
+Qed.
+
+Lemma marker_spec cl sv : marker cl sv = spec_marker cl sv.
+Proof. destruct cl, sv; vm_compute; reflexivity. Qed.
+
+(* the marker goes between the permutation prefix and the test name as written *)
+Theorem marker_name_proof : forall cl sv p pre,
+  p_name p = pre ++ p_simple p ->
+  p_name (rename cl sv p) = pre ++ spec_marker cl sv ++ 47 :: p_simple p /\
+  p_simple (rename cl sv p) = p_simple p /\
+  server_instance (rename cl sv p) = server_instance p.
+Proof.
+  intros cl sv p pre E. unfold rename, add_marker; simpl. rewrite E, trim_suffix_app, marker_spec.
+  repeat split.
+Qed.
+
+(* allPermutations: the library's own permutations plus one filtered copy per gRPC pairing *)
+Theorem all_permutations_proof : forall cl sv order q,
+  In q (all_permutations cl sv order) <->
+    In q order \/ (cl = true /\ In q (grpc_filter true false order))
+    \/ (sv = true /\ In q (grpc_filter false true order))
+    \/ (cl = true /\ sv = true /\ In q (grpc_filter true true order)).
+Proof.
+  intros cl sv order q. unfold all_permutations. rewrite !in_app_iff.
+  destruct cl, sv; simpl; intuition congruence.
+Qed.
+
+(* ------------------------------------------------------------------ *)
+(* parseTestSuites' mode restrictions                                   *)
+(* ------------------------------------------------------------------ *)
+Theorem parse_mode_proof : forall s he, parse_allows s he = true <-> parse_ok s he.
+Proof.
+  intros s he. unfold parse_allows, parse_ok. rewrite forallb_forall.
+  split; intros H t Ht; specialize (H t Ht).
+  - destruct (t_rawreq t), (t_rawresp t), he, (N.eqb_spec (s_mode s) 2), (N.eqb_spec (s_mode s) 1);
+      simpl in H; try discriminate; intuition congruence.
+  - destruct (t_rawreq t), (t_rawresp t), he, (N.eqb_spec (s_mode s) 2), (N.eqb_spec (s_mode s) 1);
+      simpl; try reflexivity; exfalso; intuition congruence.
+Qed.
+
+(* ------------------------------------------------------------------ *)
+(* when is a library built at all                                       *)
+(* ------------------------------------------------------------------ *)
+Lemma suite_ok_spec mode cs s :
+  suite_ok mode cs s <->
+  (mode_admits s mode -> suite_config_ok s /\
+     forall c, In c cs -> admits s c -> forall t, In t (s_cases s) -> test_ok c t).
+Proof.
+  unfold suite_ok, suite_body_ok. rewrite suite_active_iff, misconfigured_iff.
+  split; intros H Hm; specialize (H Hm); destruct H as (A & B); (split; [exact A|]).
+  - intros c Hc Ha t Ht. rewrite Forall_forall in B.
+    assert (Hsc : In c (suite_cases s cs)) by (apply in_suite_cases; split; assumption).
+    specialize (B c Hsc). rewrite Forall_forall in B. apply tc_ok_iff, B, Ht.
+  - apply Forall_forall. intros c Hc. apply in_suite_cases in Hc. destruct Hc as (Hc & Ha).
+    apply Forall_forall. intros t Ht. apply tc_ok_iff. exact (B c Hc Ha t Ht).
+Qed.
+
+(* the list of permutations the directives ask for, with repetitions if the naming scheme
+   or the suite repeats itself: pure, no error threading *)
+Definition expected := all_perms.
+
+Theorem library_built_iff_proof : forall ss cs mode L,
+  new_library ss cs mode = Ok L <->
+    Forall suite_header_ok ss /\ NoDup (map s_name ss) /\
+    (forall s, In s ss -> mode_admits s mode -> suite_config_ok s /\
+        forall c, In c cs -> admits s c -> forall t, In t (s_cases s) -> test_ok c t) /\
+    L = expected mode ss cs /\ NoDup (map p_name L) /\ L <> [].
+Proof.
+  intros ss cs mode L. rewrite new_library_ok_iff. unfold expected, names.
+  assert (K : Forall (suite_ok mode cs) ss <->
+              (forall s, In s ss -> mode_admits s mode -> suite_config_ok s /\
+                forall c, In c cs -> admits s c -> forall t, In t (s_cases s) -> test_ok c t)).
+  { rewrite Forall_forall. split; intros H s Hs; apply suite_ok_spec, H, Hs. }
+  rewrite K. tauto.
+Qed.
